@@ -68,7 +68,7 @@ def run(m: Model, r: Report, tier: str) -> None:
     r.check(len(enc) == 1 and len(enc[0].args) == 1 and ast.unparse(enc[0].args[0]) == "args" and not enc[0].keywords, "R1", f"{fp.qualname}#args-unaltered",
             f"the parameter map is encoded as `{ast.unparse(enc[0]) if enc else None}`; values must be written exactly as given (re-formatting, e.g. to hex, "
             "breaks fields the consumer parses as decimal)", loc=fp.loc)
-    r.check("join_host_port(host, port)" in src and "host if port is None" in src and "urlunparse((scheme, netloc, '', '', urlencode(args), ''))" in src and
+    r.check("join_host_port(host, port)" in src and "host if port is None" in src and m.has(fp, "urlunparse((scheme, netloc, '', '', urlencode(args), ''))") and
             not any(isinstance(n, (ast.For, ast.While, ast.DictComp)) for n in ast.walk(fp.node)), "R1", f"{fp.qualname}#uses-all-parts",
             "scheme, host, port and args must all reach urlunparse", loc=fp.loc)
     tu = m.require_class(f"{BASE}.TargetURI")
@@ -140,18 +140,28 @@ def run(m: Model, r: Report, tier: str) -> None:
     # ---------------------------------------------------------------- R5
     un = m.require_function(f"{UTILS}.unravel")
     us = ast.unparse(un.node)
-    consts = {ast.unparse(n.targets[0]): m.try_fold(un.module, n.value) for n in ast.walk(un.node) if isinstance(n, ast.Assign) and isinstance(n.value, ast.Constant)}
-    r.check(consts.get("listing_delimiter") == "," and consts.get("range_delimiter") == "-", "R5", f"{un.qualname}#delimiters", f"delimiters {consts}", loc=un.loc)
+    def delimiters(fn):
+        """(split delimiter, `in`-test delimiter) by role: the constant used in listing.split(...) and in `X in element` / element.split(X)"""
+        cv = {ast.unparse(n.targets[0]): n.value.value for n in ast.walk(fn.node) if isinstance(n, ast.Assign) and isinstance(n.value, ast.Constant) and isinstance(n.value.value, str)}
+        outer = inner = None
+        for n in ast.walk(fn.node):
+            if isinstance(n, ast.For) and isinstance(n.iter, ast.Call) and isinstance(n.iter.func, ast.Attribute) and n.iter.func.attr == "split" and n.iter.args:
+                a0 = n.iter.args[0]
+                outer = cv.get(ast.unparse(a0), a0.value if isinstance(a0, ast.Constant) else None)
+            if isinstance(n, ast.If) and isinstance(n.test, ast.Compare) and isinstance(n.test.ops[0], ast.In):
+                a0 = n.test.left
+                inner = cv.get(ast.unparse(a0), a0.value if isinstance(a0, ast.Constant) else None)
+        return outer, inner
+    r.check(delimiters(un) == (",", "-"), "R5", f"{un.qualname}#delimiters", f"delimiters {delimiters(un)}", loc=un.loc)
     rng = [n for n in ast.walk(un.node) if isinstance(n, ast.Call) and ast.unparse(n.func) == "range"]
-    r.check(len(rng) == 1 and ast.unparse(rng[0]).replace(" ", "") == "range(first,last+1)", "R5", f"{un.qualname}#inclusive",
+    r.check(len(rng) == 1 and m.mtext(un, rng[0]).replace(" ", "") == "range(_L,_L+1)", "R5", f"{un.qualname}#inclusive",
             f"range elements come from `{ast.unparse(rng[0]) if rng else None}`; 'a-b' includes b", loc=un.loc)
-    r.check("return sorted(result)" in us and "result = set()" in us and us.count("auto_int(") == 3, "R5", f"{un.qualname}#sorted-union",
+    r.check(m.has(un, "sorted(result)") and m.has(un, "result = set()") and us.count("auto_int(") == 3, "R5", f"{un.qualname}#sorted-union",
             "the result must be the sorted union and every number parsed with auto_int", loc=un.loc)
     u2 = m.require_function(f"{UTILS}.unravel_2d")
-    consts2 = {ast.unparse(n.targets[0]): m.try_fold(u2.module, n.value) for n in ast.walk(u2.node) if isinstance(n, ast.Assign) and isinstance(n.value, ast.Constant)}
-    r.check(consts2.get("listing_delimiter") == " " and consts2.get("level_delimiter") == ":", "R5", f"{u2.qualname}#delimiters", f"delimiters {consts2}", loc=u2.loc)
+    r.check(delimiters(u2) == (" ", ":"), "R5", f"{u2.qualname}#delimiters", f"delimiters {delimiters(u2)}", loc=u2.loc)
     src2 = ast.unparse(u2.node)
-    r.check(src2.count("unravel(") == 3 and "sorted(ur)" in src2 and "for x in sorted(unsorted_result)" in src2, "R5", f"{u2.qualname}#uses-unravel",
+    r.check(src2.count("unravel(") == 3 and m.has(u2, "sorted(ur)") and m.has(u2, "sorted(unsorted_result)"), "R5", f"{u2.qualname}#uses-unravel",
             "both levels must be parsed with unravel and the result sorted", loc=u2.loc)
     check_unravel_2d(m, r, "R5")
     pr = m.require_function(f"{CONFIG}._process_ranges")
